@@ -350,6 +350,16 @@ def run(ctx):
     # no early return between them
     rets = [n for n in walk_own(close.node) if isinstance(n, ast.Return)]
     okf = okf and not rets
+    # only the flusher thread applies buffered operations: a second caller of the flush routine (e.g. close() after a join that timed out)
+    # runs concurrently with the first and applies later operations before earlier ones have finished
+    callers = [m for c_ in (cas, rec) for m in c_.methods.values() if m is not flush and m is not target and
+               any(isinstance(n, ast.Call) and self_attr(n.func) == flush.name for n in ast.walk(m.node))]
+    cf.instance('the flush routine is called by the flusher thread only', flush.qualname, not callers)
+    cf.evaluations += 1
+    for m in callers[:1]:
+        res.add(Finding('C12', 'C12.f', 'R-ORDER', m.file, m.qualname, m.node.lineno, 'call of %s in %s' % (flush.name, m.name),
+                        '%s applies buffered operations itself: when the flusher thread is still inside a storage call (the join timed out) two threads '
+                        'flush concurrently, and an operation requested later (the save) reaches the storage before an earlier write completed' % m.qualname))
     # the flusher's sleep is interruptible by close(): every event it waits on is set by close(), and it does not sleep otherwise
     set_by_close = {self_attr(n.func.value) for n in ast.walk(close.node) if isinstance(n, ast.Call) and isinstance(n.func, ast.Attribute) and
                     n.func.attr == 'set' and self_attr(n.func.value)}
